@@ -166,23 +166,73 @@ func VH_C08_Arith() {
 }
 
 // VH_C08_Lazy: and/or evaluate the right operand only when needed; the conditional operator
-// evaluates exactly one branch. Operands are spy function calls.
+// evaluates exactly one branch. The deciding operand ranges over every value type (bool, int, float
+// from arithmetic, int64, string, nil, list, map), the other operands are spy function calls.
 func VH_C08_Lazy() {
-	l, r := symBool(), symBool()
+	var lv interface{}
+	var l bool
+	lexpr := "spy('L', l)"
+	switch symChoice(10) {
+	case 0:
+		b := symBool()
+		lv, l = b, b
+	case 1:
+		i := symInt()
+		symAssume(i >= -1 && i <= 1)
+		lv, l = i, i != 0
+	case 2:
+		f := []float64{0, 0.5}[symChoice(2)]
+		lv, l = f, f != 0
+	case 3:
+		i := []int64{0, 7}[symChoice(2)]
+		lv, l = i, i != 0
+	case 4:
+		s := symStringIn(symChoice(2), "a0")
+		lv, l = s, s != ""
+	case 5:
+		lv, l = nil, false
+	case 6:
+		n := symChoice(2)
+		lv, l = make([]interface{}, n), n > 0
+	case 7:
+		m := map[string]interface{}{}
+		if symBool() {
+			m["k"] = 1
+		}
+		lv, l = m, len(m) > 0
+	case 8: // the left operand is computed: arithmetic yields a float
+		i := symInt()
+		symAssume(i >= 2 && i <= 4)
+		lv, l = i, i != 3
+		lexpr = "(spy('L', l) - 3)"
+	case 9: // an array literal / hash literal operand
+		if symBool() {
+			lexpr, l = "[spy('L', 1)]", true
+		} else {
+			lexpr, l = "spy('L', [])", false
+		}
+		lv = 0
+	}
+	r := symBool()
 	calls := ""
 	e := New()
 	e.AddFunction("spy", func(a ...interface{}) (interface{}, error) {
 		calls += a[0].(string)
 		return a[1], nil
 	})
-	form := symChoice(3)
+	form := symChoice(5)
 	src := []string{
-		"{% if spy('L', l) and spy('R', r) %}T{% else %}F{% endif %}",
-		"{% if spy('L', l) or spy('R', r) %}T{% else %}F{% endif %}",
-		"{{ spy('C', l) ? spy('L', 'T') : spy('R', 'F') }}",
+		"{% if " + lexpr + " and spy('R', r) %}T{% else %}F{% endif %}",
+		"{% if " + lexpr + " or spy('R', r) %}T{% else %}F{% endif %}",
+		"{{ " + lexpr + " ? spy('A', 'T') : spy('B', 'F') }}",
+		"{% set v = " + lexpr + " and spy('R', r) %}{% if v %}T{% else %}F{% endif %}",
+		"{{ (" + lexpr + " or spy('R', r)) ? 'T' : 'F' }}",
 	}[form]
-	e.RegisterString("t", src)
-	out, err := e.Render("t", map[string]interface{}{"l": l, "r": r})
+	if err := e.RegisterString("t", src); err != nil {
+		symAssert(false, "expression-parses")
+		return
+	}
+	out, err := e.Render("t", map[string]interface{}{"l": lv, "r": r})
 	symCover("rendered")
 	symAssert(err == nil, "renders")
 	var want, wcalls string
@@ -193,20 +243,20 @@ func VH_C08_Lazy() {
 		return "F"
 	}
 	switch form {
-	case 0:
+	case 0, 3:
 		want, wcalls = bt(l && r), "L"
 		if l {
 			wcalls = "LR"
 		}
-	case 1:
+	case 1, 4:
 		want, wcalls = bt(l || r), "L"
 		if !l {
 			wcalls = "LR"
 		}
 	case 2:
-		want, wcalls = bt(l), "CR"
+		want, wcalls = bt(l), "LB"
 		if l {
-			wcalls = "CL"
+			wcalls = "LA"
 		}
 	}
 	symAssert(out == want, "logical-value")
